@@ -57,7 +57,7 @@ Programs == UNION {[1..n -> ItemKinds] : n \in 1..MaxTop}
 FullProg(p) == IF WithReturn THEN p \o <<"return">> ELSE p
 
 Stmts(p) == 0..(NStmts(p) - 1)
-DirKinds == {"ignore", "start", "end", "ignore_ml"}
+DirKinds == {"ignore", "start", "end", "ignore_ml", "ignore_bc"}
 StartMarks(p) == {"before:" \o ToString(k) : k \in Stmts(p)} \cup {"infirst:" \o ToString(k) : k \in Stmts(p)} \cup {"none", "0"}
 EndMarks(p) == {"after:" \o ToString(k) : k \in Stmts(p)} \cup {"last:" \o ToString(k) : k \in Stmts(p)}
                \cup {"inlast:" \o ToString(k) : k \in Stmts(p)} \cup {"none", "len", "max", "0"}
@@ -71,7 +71,7 @@ DevOptions(p) ==
   (IF "range" \in DevTypes THEN {[t |-> "range", s |-> 0, x |-> a, y |-> b] : a \in StartMarks(p), b \in EndMarks(p)} \ {[t |-> "range", s |-> 0, x |-> "none", y |-> "none"]} ELSE {})
 
 TypeRank(t) == CASE t = "semi" -> 1 [] t = "dir" -> 2 [] t = "cmt" -> 3 [] t = "tail" -> 4 [] t = "range" -> 5
-XRank(x) == CASE x = "ignore" -> 1 [] x = "start" -> 2 [] x = "end" -> 3 [] x = "ignore_ml" -> 4 [] x = "after" -> 1 [] x = "before_semi" -> 2 [] x = "blank" -> 1 [] x = "comment" -> 2 [] OTHER -> 0
+XRank(x) == CASE x = "ignore" -> 1 [] x = "start" -> 2 [] x = "end" -> 3 [] x = "ignore_ml" -> 4 [] x = "ignore_bc" -> 5 [] x = "after" -> 1 [] x = "before_semi" -> 2 [] x = "blank" -> 1 [] x = "comment" -> 2 [] OTHER -> 0
 Rank(d) == TypeRank(d.t) * 1000 + d.s * 10 + XRank(d.x)
 
 Init == prog \in {FullProg(p) : p \in Programs} /\ devs = <<>>
@@ -80,6 +80,7 @@ AddDev ==
   /\ \E d \in DevOptions(prog) :
        /\ (devs # <<>> => Rank(d) > Rank(devs[Len(devs)]))
        /\ (d.t = "cmt" /\ d.x = "before_semi" => HasDev(devs, "semi", d.s))
+       /\ (("range" \in DevTypes /\ d.t = "dir") => d.x = "ignore")     \* next to a range only the plain directive is explored
        /\ devs' = Append(devs, d)
   /\ UNCHANGED prog
 Next == AddDev
@@ -88,7 +89,9 @@ Spec == Init /\ [][Next]_vars
 Comments ==
   LET dirText(x) == CASE x = "ignore" -> " stylua: ignore" [] x = "start" -> " stylua: ignore start" [] x = "end" -> " stylua: ignore end"
       \* "ignore_ml": the directive on a line of its own inside a multi-line block comment that also says other things
-      one(d) == CASE d.t = "dir" /\ d.x = "ignore_ml" -> <<[before_stmt |-> d.s, kind |-> "mldir", text |-> "stylua: ignore", slot |-> 0]>>
+      \* "ignore_bc": the directive written as a one-line block comment `--[[ stylua: ignore ]]`
+      one(d) == CASE d.t = "dir" /\ d.x = "ignore_bc" -> <<[before_stmt |-> d.s, kind |-> "ownline", text |-> " stylua: ignore ", slot |-> 0]>>
+                  [] d.t = "dir" /\ d.x = "ignore_ml" -> <<[before_stmt |-> d.s, kind |-> "mldir", text |-> "stylua: ignore", slot |-> 0]>>
                   [] d.t = "dir" -> <<[before_stmt |-> d.s, kind |-> "ownlinec", text |-> dirText(d.x), slot |-> 0]>>
                   [] d.t = "cmt" /\ d.x = "after" -> <<[after_stmt |-> d.s, kind |-> "line", text |-> " tc", slot |-> 0]>>
                   [] d.t = "cmt" /\ d.x = "before_semi" -> <<[before_semi |-> d.s, kind |-> "block", text |-> "bs", slot |-> 0]>>
